@@ -58,16 +58,19 @@ def run(ctx):
     corepairs = ",".join("%s:%s" % (a, b) for i, a in enumerate(order) for b in order[i:] if a in core and b in core)
     plans = [("tty", "UTF-8", 3 if q else 1, ""), ("tty", "ISO8859-1", 1, corepairs)] \
         + ([] if q else [("tty", "ISO8859-1", 1, ""), ("tty", "US-ASCII", 1, corepairs)]) \
-        + [("sim", "ISO8859-1", 1, "")] + ([] if q else [("sim", "UTF-8", 1, "")])
+        + [("sim", "ISO8859-1", 1, "")] + ([] if q else [("sim", "UTF-8", 1, "")]) + [("pty", "UTF-8", 1, "")]
     for kind, charset, stride, pairs in plans:
         start = 0
         while True:
             tf2 = ctx.work + "/race.ndjson"
-            s2, _ = ctx.run_vh(["race", "--mode", "race", "--iters", (50 if kind == "sim" else 25) if q else 150, "--seed", ctx.seed, "--start", start,
+            s2, _ = ctx.run_vh(["race", "--mode", "race", "--iters", (50 if kind == "sim" else 15 if kind == "pty" else 25) if q else (40 if kind == "pty" else 150), "--seed", ctx.seed, "--start", start,
                                 "--stride", stride, "--charset", charset, "--pairs", pairs, "--screen", kind, "--out", tf2],
-                               timeout=3000, env={"GORACE": "halt_on_error=0"}, binary=rb, check=False)
+                               timeout=300 if kind == "pty" else 3000, env={"GORACE": "halt_on_error=0"}, binary=rb, check=False)
             err = s2.get("_stderr", "")
             extra += parse_races(err)
+            if s2.get("skipped"):
+                ctx.assumptions.append("no pseudo-terminal available here (%s): the device-Tty pairs were skipped" % s2["skipped"])
+                break
             idx = [int(x) for x in re.findall(r"@@IDX (\d+)", err)]
             pairs_run += len(idx)
             if s2["_rc"] == 0 or not idx or restarts > 6:
@@ -95,4 +98,5 @@ def run(ctx):
     ctx.finish("other",
                rule="every Screen method called on three terminals with lock/unlock and Write events; all unordered pairs of 26 "
                     "methods (every 3rd in the quick tier) run concurrently with input and resize traffic under -race; "
-                    "the same on a SimulationScreen with its five own calls added (31 methods, all pairs)")
+                    "the same on a SimulationScreen with its five own calls added (31 methods, all pairs); Suspend/Resume cycles against drawing and "
+                    "size calls on the real device Tty over a pty with SIGWINCH traffic")
